@@ -185,6 +185,16 @@ def check_one(game, bp, svs, nk, ov, ctx):
             except Exception:
                 pass
             m.bpms.bpm = real
+        # rows and row labels are representation, not content: one note layout gets its tempo and SV rows in reverse order,
+        # another gets them in time order under non-default labels (what sorted() / a filter leaves behind)
+        if nk == "late_first":
+            for l in (m.bpms, getattr(m, "svs", None)):
+                if l is not None and len(l) > 1:
+                    l.df = l.df.iloc[::-1]
+        elif nk == "hold_last":
+            for l in (m.bpms, getattr(m, "svs", None)):
+                if l is not None and len(l) > 1:
+                    l.df = l.df.iloc[::-1].reset_index(drop=True).sort_values("offset", kind="stable")
         return m
 
     heads = [n[0] for n in notes]
